@@ -38,8 +38,10 @@ pub fn txs_to_csv(txs: &[Tx]) -> String {
         let d = |x: time::Date| date_str(x);
         let mut aff = if t.affiliate.is_global() { String::new() } else { t.affiliate.name().to_string() };
         // the same affiliate typed in another capitalisation in some later rows (one ledger all the same)
-        if ri >= 3 && !aff.is_empty() {
-            match (ri * 7 + aff.len()) % 13 {
+        // (decided by the row's own content, so that a row is spelled the same in whatever file it is)
+        let _ = ri;
+        if !aff.is_empty() {
+            match (jd(t.settlement_date) as usize * 7 + jd(t.trade_date) as usize + aff.len()) % 13 {
                 0 => aff = aff.to_uppercase(),
                 1 => aff = aff.to_lowercase(),
                 _ => {}
